@@ -328,27 +328,7 @@ func checkRecordCoverage(w *World, r *Result) {
 func checkExtractShape(w *World, r *Result) {
 	// verbs
 	hm := w.MustFunc("analysis/httpapi.isHttpMethod")
-	verbs := map[string]bool{}
-	ast.Inspect(hm.Decl.Body, func(x ast.Node) bool {
-		cc, ok := x.(*ast.CaseClause)
-		if !ok {
-			return true
-		}
-		returnsTrue := false
-		for _, st := range cc.Body {
-			if ret, ok := st.(*ast.ReturnStmt); ok && len(ret.Results) == 1 && es(ret.Results[0]) == "true" {
-				returnsTrue = true
-			}
-		}
-		if returnsTrue {
-			for _, e := range cc.List {
-				if tv := hm.Pkg.TypesInfo.Types[e]; tv.Value != nil && tv.Value.Kind() == constant.String {
-					verbs[constant.StringVal(tv.Value)] = true
-				}
-			}
-		}
-		return true
-	})
+	verbs := acceptedStrings(w, hm)
 	for _, v := range []string{"GET", "PUT", "POST", "DELETE"} {
 		r.cond(verbs[v], "SHP-C13v", hm.Name, "verb "+v+" accepted", fnPos(w, hm), "in the accepted set", "registrations with verb "+v+" are no longer extracted")
 	}
@@ -924,8 +904,8 @@ func checkAnonymousNames(w *World, r *Result) {
 	info := fi.Pkg.TypesInfo
 	n := 0
 	ast.Inspect(fi.Decl.Body, func(x ast.Node) bool {
-		call, ok := x.(*ast.CallExpr)
-		if !ok || !isSprintf(info, &call) || len(call.Args) != 2 {
+		call := sprintfView(info, x)
+		if call == nil || len(call.Args) != 2 {
 			return true
 		}
 		tv := info.Types[call.Args[0]]
